@@ -2,6 +2,11 @@
 
 package mercure
 
+import (
+	"encoding/json"
+	"net/http"
+)
+
 // White-box accessors for the verification harness (/verif). This file is NOT part of the
 // repository: it is injected at build time with `go build -tags verif -overlay`.
 
@@ -17,3 +22,29 @@ func VerifDecode(f string) ([]string, bool) { return decode(f) }
 
 // VerifMatch exposes TopicSelectorStore.match.
 func (tss *TopicSelectorStore) VerifMatch(topic, sel string) bool { return tss.match(topic, sel) }
+
+// VerifAuthorize exposes authorize with the hub's own key functions; it returns
+// "ok:<payload JSON>", "anon" or "err".
+func VerifAuthorize(h *Hub, r *http.Request, publisher bool) string {
+	var (
+		c   *claims
+		err error
+	)
+	if publisher {
+		c, err = authorize(r, h.publisherJWTKeyFunc, h.publishOrigins, h.cookieName)
+	} else {
+		c, err = authorize(r, h.subscriberJWTKeyFunc, nil, h.cookieName)
+	}
+	switch {
+	case err != nil:
+		return "err"
+	case c == nil:
+		return "anon"
+	}
+	if c.Mercure.Payload == nil {
+		return "ok:"
+	}
+	b, _ := json.Marshal(c.Mercure.Payload)
+
+	return "ok:" + string(b)
+}
